@@ -243,6 +243,9 @@ def make_xi():
                     return len(recv.encode("utf-8"))
                 if m == "len_utf8":
                     return len(recv.encode("utf-8"))
+                if m in ("find", "rfind") and isinstance(args[0], str):
+                    i_ = recv.find(args[0]) if m == "find" else recv.rfind(args[0])
+                    return None if i_ < 0 else len(recv[:i_].encode("utf-8"))
                 if m == "contains":
                     return args[0] in recv
                 if m in ("starts_with", "ends_with"):
@@ -328,6 +331,8 @@ def r22e(ctx, run):
         "ident": ("Ident", "ab", {"Ident"}), "space": ("Whitespace", " ", {"Whitespace"}), "err1": (None, "$", {"Error"}), "err2": (None, "\u00a7", {"Error"}),
         "string": ("__InternalString", '"x"', {"DoubleQuote", "StringContents", "Escape"}), "char": ("__InternalChar", "'c'", {"SingleQuote", "StringContents", "Escape"}),
         "comment": ("__InternalComment", "//c", {"CommentLeader", "CommentContents"}),
+        # a comment runs to the next line feed: a carriage return inside it is part of the comment (a trailing one may count as white space)
+        "comment-cr": ("__InternalComment", "//a\rb", {"CommentLeader", "CommentContents"}),
     }
 
     class LI(XI):
@@ -403,6 +408,8 @@ def r22e(ctx, run):
                     allowed = ITEMS[c][2]
                     for p_ in range(st0, st0 + len(t.encode())):
                         j = tok_at(p_)
+                        if t.encode()[p_ - st0:p_ - st0 + 1] == b"\r" and kinds[j] == "Whitespace":
+                            continue
                         if kinds[j] not in allowed:
                             why = "byte %d (part of the scanner item %s %r) lies in a %s token" % (p_, c, t, kinds[j])
                             break
